@@ -1515,3 +1515,465 @@ def eval_predicate(fnode, args, what="predicate"):
     except NormError as ex:
         raise AnalysisError("%s cannot be evaluated for %r: %s" % (what, args, ex))
     raise AnalysisError("%s: no path for %r" % (what, args))
+
+
+# ---------------------------------------------------------------------------
+# one attribute field of self over the CFG of one function: which locals hold
+# the very object the field holds (must-alias classes), and whether that object
+# can be None (the "CSM received" state is `self._remote_settings is not None`)
+
+NULL_NONE, NULL_OBJ, NULL_ANY = "none", "not-none", "unknown"
+
+_DICT_MUTATORS = {"pop", "update", "setdefault", "clear", "popitem", "__setitem__", "__delitem__", "__ior__",
+                  "append", "extend", "insert", "remove", "add", "discard"}
+
+
+def _capture_names(pattern):
+    out = []
+    for x in ast.walk(pattern):
+        if isinstance(x, (ast.MatchAs, ast.MatchStar)) and x.name:
+            out.append(x.name)
+        elif isinstance(x, ast.MatchMapping) and x.rest:
+            out.append(x.rest)
+    return out
+
+
+def node_parts(node):
+    """What ONE CFG node stands for: (expressions it evaluates, [(target, value or None)]
+    it binds in order, names it rebinds to something unknown).  For compound
+    statements only the header belongs to the node."""
+    a, k = node.ast, node.kind
+    if a is None or k in ("T", "F", "join", "entry", "exit", "rexit"):
+        return [], [], []
+    if isinstance(a, (ast.For, ast.AsyncFor)):
+        return [a.iter], [(a.target, None)], []
+    if isinstance(a, (ast.With, ast.AsyncWith)):
+        return [it.context_expr for it in a.items], [(it.optional_vars, None) for it in a.items if it.optional_vars is not None], []
+    if isinstance(a, ast.ExceptHandler):
+        return [], [], [a.name] if a.name else []
+    if isinstance(a, ast.expr):
+        return [a], [], []
+    if isinstance(a, ast.Assign):
+        return [a.value] + [t for t in a.targets if not isinstance(t, ast.Name)], [(t, a.value) for t in a.targets], []
+    if isinstance(a, ast.AnnAssign):
+        if a.value is None:
+            return [], [], []
+        return [a.value] + ([] if isinstance(a.target, ast.Name) else [a.target]), [(a.target, a.value)], []
+    if isinstance(a, ast.AugAssign):
+        return [a.value] + ([] if isinstance(a.target, ast.Name) else [a.target]), [(a.target, None)], []
+    if isinstance(a, (ast.Return, ast.Expr, ast.Raise, ast.Delete, ast.Assert)):
+        return [a], [], []
+    if isinstance(a, (ast.FunctionDef, ast.AsyncFunctionDef, ast.ClassDef)):
+        return list(a.decorator_list), [], [a.name]
+    if isinstance(a, (ast.Import, ast.ImportFrom)):
+        return [], [], [(al.asname or al.name.split(".")[0]) for al in a.names]
+    if isinstance(a, ast.Match):
+        return [a.subject], [], [n for c in a.cases for n in _capture_names(c.pattern)]
+    if isinstance(a, (ast.Pass, ast.Break, ast.Continue, ast.Global, ast.Nonlocal)):
+        return [], [], []
+    raise AnalysisError("field flow: statement kind %s is outside the vocabulary" % type(a).__name__)
+
+
+class FieldFlow:
+    """Forward data-flow over a CFG (normal edges, plus the edges into exception
+    handlers).  A state is a partition of {locals, FIELD} into classes of names
+    that are KNOWN to hold the same object, each class with a nullness
+    (none / not-none / unknown); names outside every class hold an unknown object
+    of their own.  The join keeps only what holds on every incoming path
+    (pairwise intersection of classes), so `x in aliases(nid)` means: on every
+    path to nid, x and the field are the same object -- a store through x is a
+    store into the field's object, whatever x is called and however often it was
+    assigned.  Tests `X is None` / `X is not None` / `X` / `isinstance(X, ..)`
+    refine the class of X on their outcomes (a contradicting outcome is dead).
+
+    decide(nid) -> True/False/None fixes the outcome of test nodes (used to
+    specialise the flow to one value of a finite-domain subject).
+    calls_rebind: a call may rebind the field (then every call forgets what the
+    field holds); pass False only under a closed-world premise that no function
+    that can run meanwhile assigns the field.
+    """
+
+    def __init__(self, cfg, field, decide=None, calls_rebind=True):
+        self.cfg = cfg
+        self.field = field
+        self.root = field.split(".")[0]
+        self.decide = decide or (lambda nid: None)
+        self.calls_rebind = calls_rebind
+        self.inn = {}
+        self._solve()
+
+    # ---- states: frozenset of (frozenset(names), nullness); canonical
+    @staticmethod
+    def _freeze(classes):
+        return frozenset((frozenset(c), n) for c, n in classes if c and (len(c) > 1 or n != NULL_ANY))
+
+    @staticmethod
+    def _join(a, b):
+        if a is None:
+            return b
+        if b is None:
+            return a
+        if a == b:
+            return a
+        out = []
+        for ca, na in a:
+            for cb, nb in b:
+                c = ca & cb
+                if c:
+                    out.append((c, na if na == nb else NULL_ANY))
+        return FieldFlow._freeze(out)
+
+    def _var(self, e):
+        """the tracked name an expression denotes (a local, or the field), else None"""
+        if isinstance(e, ast.NamedExpr):
+            return e.target.id
+        if isinstance(e, ast.Name):
+            return e.id
+        if isinstance(e, ast.Attribute) and chain(e) == self.field:
+            return self.field
+        return None
+
+    @staticmethod
+    def _cls_of(classes, v, create=False):
+        for c in classes:
+            if v in c[0]:
+                return c
+        if create:
+            c = [{v}, NULL_ANY]
+            classes.append(c)
+            return c
+        return None
+
+    def nullness(self, e, state):
+        """nullness of the value of expression e in `state` (a frozen state)"""
+        return self._null(e, [[set(c), n] for c, n in state])
+
+    def _null(self, e, classes):
+        if isinstance(e, ast.Constant):
+            return NULL_NONE if e.value is None else NULL_OBJ
+        if isinstance(e, (ast.Dict, ast.DictComp, ast.List, ast.ListComp, ast.Set, ast.SetComp, ast.Tuple, ast.JoinedStr, ast.Lambda, ast.GeneratorExp, ast.Compare)):
+            # a display / comprehension / comparison result is an object
+            return NULL_OBJ
+        if isinstance(e, ast.NamedExpr):
+            return self._null(e.value, classes)
+        v = self._var(e)
+        if v is not None:
+            c = self._cls_of(classes, v)
+            return c[1] if c else NULL_ANY
+        if isinstance(e, ast.Call) and isinstance(e.func, ast.Name) and e.func.id in ("dict", "list", "set", "tuple", "frozenset", "int", "str", "bytes", "bool", "len"):
+            return NULL_OBJ
+        if isinstance(e, ast.BoolOp):
+            if isinstance(e.op, ast.Or):
+                # `a or b` is a when a is truthy (then not None), else b
+                res = self._null(e.values[-1], classes)
+                for x in reversed(e.values[:-1]):
+                    nx = self._null(x, classes)
+                    if res == NULL_OBJ:
+                        continue
+                    res = NULL_NONE if (res == NULL_NONE and nx == NULL_NONE) else NULL_ANY
+                return res
+            first = self._null(e.values[0], classes)
+            return NULL_NONE if first == NULL_NONE else NULL_ANY
+        if isinstance(e, ast.IfExp):
+            res = None
+            for arm, pol in ((e.body, True), (e.orelse, False)):
+                cl = [[set(c), n] for c, n in classes]
+                if self._refine(cl, e.test, pol) is None:
+                    continue
+                n = self._null(arm, cl)
+                res = n if res is None or res == n else NULL_ANY
+            return res or NULL_ANY
+        if isinstance(e, ast.BinOp) and isinstance(e.left, (ast.Dict, ast.DictComp)):
+            return NULL_OBJ
+        return NULL_ANY
+
+    def _refine(self, classes, test, pol):
+        """narrow `classes` in place by the outcome of an atomic test; None when
+        the outcome contradicts what is known (dead edge)"""
+        if isinstance(test, ast.UnaryOp) and isinstance(test.op, ast.Not):
+            return self._refine(classes, test.operand, not pol)
+        want = None
+        v = None
+        if isinstance(test, ast.Compare) and len(test.ops) == 1 and isinstance(test.ops[0], (ast.Is, ast.IsNot)):
+            l, r = test.left, test.comparators[0]
+            if isinstance(l, ast.Constant) and l.value is None:
+                l, r = r, l
+            if isinstance(r, ast.Constant) and r.value is None:
+                v = self._var(l)
+                want = NULL_NONE if isinstance(test.ops[0], ast.Is) == pol else NULL_OBJ
+        elif isinstance(test, ast.Call) and isinstance(test.func, ast.Name) and test.func.id == "isinstance" and len(test.args) == 2 and not test.keywords:
+            names = {x.id for x in ast.walk(test.args[1]) if isinstance(x, ast.Name)}
+            if pol and "NoneType" not in names and not any(isinstance(x, ast.Call) for x in ast.walk(test.args[1])):
+                v = self._var(test.args[0])
+                want = NULL_OBJ
+        else:
+            v = self._var(test)
+            if v is not None and pol:
+                want = NULL_OBJ  # a truthy value is not None
+        if v is None or want is None:
+            return classes
+        c = self._cls_of(classes, v, create=True)
+        if c[1] != NULL_ANY and c[1] != want:
+            return None
+        c[1] = want
+        return classes
+
+    def _kill(self, classes, v):
+        for c in classes:
+            c[0].discard(v)
+
+    def _transfer(self, nid, state):
+        node = self.cfg.nodes[nid]
+        if node.kind in ("T", "F"):
+            if not isinstance(node.ast, ast.expr):
+                return state
+            cl = self._refine([[set(c), n] for c, n in state], node.ast, node.kind == "T")
+            return None if cl is None else self._freeze(cl)
+        evals, binds, kills = node_parts(node)
+        if not (evals or binds or kills):
+            return state
+        classes = [[set(c), n] for c, n in state]
+        targets = {id(t) for t, _v in binds}
+
+        def evaluate(ev):
+            for x in walk_no_nested(ev):
+                if isinstance(x, (ast.Call, ast.Await, ast.Yield, ast.YieldFrom)) and self.calls_rebind:
+                    self._kill(classes, self.field)
+                elif isinstance(x, ast.NamedExpr):
+                    self._bind(classes, x.target.id, self._describe(classes, x.value))
+                elif isinstance(x, ast.Name) and isinstance(x.ctx, (ast.Store, ast.Del)):
+                    self._kill(classes, x.id)
+                    if x.id == self.root:
+                        self._kill(classes, self.field)
+                elif isinstance(x, ast.Attribute) and isinstance(x.ctx, (ast.Store, ast.Del)) and chain(x) == self.field:
+                    self._kill(classes, self.field)
+
+        # the right-hand sides are evaluated (their calls and walruses take effect),
+        # then described, then the targets are evaluated and bound left to right
+        for ev in evals:
+            if id(ev) not in targets:
+                evaluate(ev)
+        plan = []
+        for target, value in binds:
+            self._plan(classes, target, value, plan)
+        for ev in evals:
+            if id(ev) in targets:
+                evaluate(ev)
+        for v, desc in plan:
+            self._bind(classes, v, desc)
+        for v in kills:
+            self._kill(classes, v)
+        return self._freeze(classes)
+
+    def _describe(self, classes, value):
+        if value is None:
+            return None
+        v = self._var(value) if not isinstance(value, ast.NamedExpr) else None
+        if v is not None:
+            return ("same", self._cls_of(classes, v, create=True))
+        return ("fresh", self._null(value, classes))
+
+    def _plan(self, classes, target, value, plan):
+        if isinstance(target, (ast.Tuple, ast.List)):
+            if isinstance(value, (ast.Tuple, ast.List)) and len(value.elts) == len(target.elts) and not any(isinstance(x, ast.Starred) for x in list(value.elts) + list(target.elts)):
+                for t, v in zip(target.elts, value.elts):
+                    self._plan(classes, t, v, plan)
+            else:
+                for t in target.elts:
+                    self._plan(classes, t.value if isinstance(t, ast.Starred) else t, None, plan)
+            return
+        v = None
+        if isinstance(target, ast.Name):
+            v = target.id
+        elif isinstance(target, ast.Attribute) and chain(target) == self.field:
+            v = self.field
+        if v is not None:
+            plan.append((v, self._describe(classes, value)))
+
+    def _bind(self, classes, v, desc):
+        self._kill(classes, v)
+        if v == self.root:
+            self._kill(classes, self.field)
+        if desc is None:
+            return
+        if desc[0] == "same":
+            desc[1][0].add(v)
+        else:
+            classes.append([{v}, desc[1]])
+
+    def _solve(self):
+        cfg = self.cfg
+        self.inn = {cfg.entry: frozenset()}
+        todo = [cfg.entry]
+        rounds = 0
+        while todo:
+            rounds += 1
+            if rounds > 200000:
+                raise AnalysisError("field flow does not stabilise")
+            n = todo.pop()
+            state = self.inn[n]
+            out = self._transfer(n, state)
+            dec = self.decide(n) if cfg.nodes[n].kind == "test" else None
+            for d, lab in cfg.succ[n]:
+                if lab == "exc":
+                    if cfg.nodes[d].kind != "handler":
+                        continue
+                    # the exception may leave the statement before or after its effect
+                    prop = self._join(state, out)
+                else:
+                    prop = out
+                if prop is None:
+                    continue
+                if dec is not None and lab in ("T", "F") and (lab == "T") != dec:
+                    continue
+                new = self._join(self.inn.get(d), prop)
+                if d not in self.inn or new != self.inn[d]:
+                    self.inn[d] = new
+                    todo.append(d)
+
+    # ---- queries
+    def reachable(self, nid):
+        return nid in self.inn
+
+    def aliases(self, nid):
+        """locals that hold the field's object on every path to nid"""
+        for c, _n in self.inn.get(nid, ()):
+            if self.field in c:
+                return set(c) - {self.field}
+        return set()
+
+    def field_nullness(self, nid):
+        for c, n in self.inn.get(nid, ()):
+            if self.field in c:
+                return n
+        return NULL_ANY
+
+
+def may_aliases(fnode, field):
+    """Locals that are bound, anywhere in the function, from an expression that
+    mentions the field or another such local (flow-insensitive upper bound of
+    the names through which the field's object might be reached)."""
+    out = set()
+
+    def mentions(e):
+        for x in ast.walk(e):
+            if isinstance(x, ast.Attribute) and chain(x) == field:
+                return True
+            if isinstance(x, ast.Name) and isinstance(x.ctx, ast.Load) and x.id in out:
+                return True
+        return False
+
+    def names(t):
+        return {x.id for x in ast.walk(t) if isinstance(x, ast.Name)}
+
+    changed = True
+    while changed:
+        changed = False
+        for n in walk_with_lambdas(fnode):
+            pairs = []
+            if isinstance(n, ast.Assign):
+                pairs = [(t, n.value) for t in n.targets]
+            elif isinstance(n, (ast.AnnAssign, ast.AugAssign)) and n.value is not None:
+                pairs = [(n.target, n.value)]
+            elif isinstance(n, ast.NamedExpr):
+                pairs = [(n.target, n.value)]
+            elif isinstance(n, (ast.For, ast.AsyncFor, ast.comprehension)):
+                pairs = [(n.target, n.iter)]
+            elif isinstance(n, ast.withitem) and n.optional_vars is not None:
+                pairs = [(n.optional_vars, n.context_expr)]
+            for t, v in pairs:
+                if isinstance(t, (ast.Subscript, ast.Attribute)):
+                    continue
+                if mentions(v):
+                    new = names(t) - out
+                    if new:
+                        out |= new
+                        changed = True
+    return out
+
+
+def dict_effects(node, receivers, is_field):
+    """Effects of one CFG node on the dictionary held by any of `receivers`
+    (local names) or by the field (is_field(expr)).  Yields
+      ("rebind", stmt, value)        the field itself is assigned / deleted (value None: not a plain assignment)
+      ("set", site, key, value)      d[k] = v,  d.__setitem__(k, v),  d.update({k: v}, k=v) with literal keys
+      ("merge", site, None, None)    d.update(x) / d |= x: keys not visible
+      ("other", site, None, None)    any other mutation (del d[k], pop, clear, setdefault, nested stores, method value taken)
+      ("escape", site, None, None)   the dictionary is handed to a call / stored in another object / returned
+    """
+    a = node.ast
+    if a is None or node.kind in ("T", "F", "join", "entry", "exit", "rexit"):
+        return
+
+    def is_recv(e):
+        return (isinstance(e, ast.Name) and e.id in receivers) or is_field(e)
+
+    evals, binds, _k = node_parts(node)
+    stmt = a
+    for target, value in binds:
+        for t in (target.elts if isinstance(target, (ast.Tuple, ast.List)) else [target]):
+            if is_field(t):
+                if isinstance(stmt, ast.AugAssign):
+                    yield ("merge", stmt, None, None)
+                else:
+                    yield ("rebind", stmt, value if not isinstance(target, (ast.Tuple, ast.List)) else None)
+            elif isinstance(t, ast.Name) and t.id in receivers and isinstance(stmt, ast.AugAssign):
+                yield ("merge", stmt, None, None)
+            elif isinstance(t, ast.Subscript):
+                if is_recv(t.value) and not isinstance(t.slice, ast.Slice):
+                    if isinstance(stmt, ast.Assign) and not isinstance(target, (ast.Tuple, ast.List)):
+                        yield ("set", stmt, t.slice, value)
+                    else:
+                        yield ("other", stmt, None, None)
+                else:
+                    base = t.value
+                    while isinstance(base, ast.Subscript):
+                        base = base.value
+                    if is_recv(base):
+                        yield ("other", stmt, None, None)
+            elif isinstance(t, ast.Attribute) and value is not None and is_recv(value):
+                yield ("escape", stmt, None, None)
+    roots = list(evals)
+    if isinstance(a, ast.Delete):
+        for t in a.targets:
+            base = t
+            while isinstance(base, ast.Subscript):
+                base = base.value
+            if is_field(t):
+                yield ("rebind", a, None)
+            elif base is not t and is_recv(base):
+                yield ("other", a, None, None)
+    claimed = set()
+    for root in roots:
+        for x in walk_with_lambdas(root):
+            if isinstance(x, ast.Call):
+                f = x.func
+                if isinstance(f, ast.Attribute) and is_recv(f.value):
+                    claimed.add(id(f))
+                    plain = not any(isinstance(z, ast.Starred) for z in x.args) and not any(k.arg is None for k in x.keywords)
+                    if f.attr == "__setitem__" and plain and len(x.args) == 2 and not x.keywords:
+                        yield ("set", x, x.args[0], x.args[1])
+                    elif f.attr == "update":
+                        if plain and len(x.args) <= 1 and (not x.args or (isinstance(x.args[0], ast.Dict) and all(k is not None for k in x.args[0].keys))):
+                            if x.args:
+                                for k, v in zip(x.args[0].keys, x.args[0].values):
+                                    yield ("set", x, k, v)
+                            for k in x.keywords:
+                                yield ("set", x, ast.Constant(value=k.arg), k.value)
+                        else:
+                            yield ("merge", x, None, None)
+                    elif f.attr in _DICT_MUTATORS:
+                        yield ("other", x, None, None)
+                for z in list(x.args) + [k.value for k in x.keywords]:
+                    z = z.value if isinstance(z, ast.Starred) else z
+                    if is_recv(z):
+                        yield ("escape", x, None, None)
+            elif isinstance(x, ast.Attribute) and id(x) not in claimed and x.attr in _DICT_MUTATORS and is_recv(x.value) and isinstance(x.ctx, ast.Load):
+                # the bound method itself is taken (functools.partial(d.pop, k), f = d.update)
+                yield ("other", x, None, None)
+            elif isinstance(x, (ast.Return, ast.Yield, ast.YieldFrom)) and x.value is not None and is_recv(x.value):
+                yield ("escape", x, None, None)
+            elif isinstance(x, (ast.List, ast.Tuple, ast.Set)) and any(is_recv(z) for z in x.elts):
+                yield ("escape", x, None, None)
+            elif isinstance(x, ast.Dict) and any(is_recv(z) for z in x.values):
+                yield ("escape", x, None, None)
